@@ -156,11 +156,46 @@ def select_standin(e):
     e.log('X4', 'tokio::select! with 2 arms replaced by a nondeterministic choice between them')
 
 
+def do_rpc_obligations(C):
+    """X6 for Peer::do_rpc: the ghost snapshot and the five asserts around `let mut <resp> = read_response(&mut <recv>).await?;` are attached by SHAPE; the names
+    of the locals (request parameter, the two framed halves, the response) are read from the text, so renaming them changes nothing"""
+    KEY = 'Peer::do_rpc'
+    BEFORE = '''let ghost reply = %(recv)s.inner.remaining();
+        assert(%(send)s.inner.pair == %(recv)s.inner.pair); // @OBL Peer::do_rpc::one_stream_pair [C02] the response is read from the receive half of the SAME bidirectional stream the request was written to (one open_bi per RPC)
+        assert(%(send)s.codec == %(recv)s.codec); // @OBL Peer::do_rpc::same_codec_both_directions [C15] the caller frames what it sends and what it receives with one and the same limit, built from its configuration
+        assert(%(send)s.inner.o@ == enc_message(%(req)s.head.version, raw_req(%(req)s.head.route, %(req)s.head.headers).ser(), %(req)s.body@)); // @OBL Peer::do_rpc::sends_exactly_the_request [C02] before the response is awaited, what went out on the stream is exactly the encoding of the caller's request (route, headers, body) and nothing else
+        assert(%(send)s.inner.finished@); // @OBL Peer::do_rpc::finishes_stream [C02] the request stream is finished before the response is awaited
+        '''
+    AFTER = '''
+        assert(({ let d = dec_message(reply, %(recv)s.codec.max as nat)->Some_0; let raw = RawResponseHeader::de(d.0)->Some_0;
+                  Some(%(resp)s.head.status) == status_of(raw.status) && %(resp)s.head.headers == raw.headers && %(resp)s.body@ == d.1 })); // @OBL Peer::do_rpc::returns_exactly_the_reply [C02] the value returned is exactly (status, headers, body) decoded from the bytes that arrived on that stream'''
+
+    def tr(e):
+        t = e.text
+        mr = list(re.finditer(r'let\s+mut\s+(\w+)\s*=\s*read_response\(\s*&mut\s+(\w+)\s*\)\s*\.await\s*\?\s*;', t))
+        mw = list(re.finditer(r'write_request\(\s*&mut\s+(\w+)\s*,\s*(\w+)\s*\)\s*\.await', t))
+        if len(mr) == 1 and len(mw) == 1 and mw[0].start() < mr[0].start():
+            names = dict(resp=mr[0].group(1), recv=mr[0].group(2), send=mw[0].group(1), req=mw[0].group(2))
+            # the request is consumed by write_request: the asserts speak about the value handed in, kept as a ghost copy at function entry
+            req = names['req']
+            b = t.index('{') + 1
+            ghost_req = '\n        let ghost __req0 = %s;' % req
+            names['req'] = '__req0'
+            t = t[:mr[0].start()] + BEFORE % names + t[mr[0].start():mr[0].end()] + AFTER % names + t[mr[0].end():]
+            t = t[:b] + ghost_req + t[b:]
+            e.text = t
+            e.log('X6', 'ghost copy of the request, ghost snapshot of the bytes to come and five asserts around the read of the response (locals: %s)' % ', '.join('%s=%s' % kv for kv in sorted(names.items())))
+        else:
+            C._lose(KEY, ['C02', 'C15'], [BEFORE % dict(send='s', recv='r', req='q'), AFTER % dict(recv='r', resp='p')],
+                    'do_rpc no longer has the shape write_request(&mut <send>, <request>) ... let mut <response> = read_response(&mut <recv>).await?; (found %d / %d such places)' % (len(mw), len(mr)), body=False)
+    return tr
+
+
 def service_fn_standin(e):
     """X12: `tower::service_fn(move |request| { let peer = peer.clone(); async move { peer.do_rpc(request).await } }).boxed()` -- a closure returning an async
     block, which Verus cannot take -- is replaced by the stand-in `DoRpcService { peer }` ONLY if it has exactly this shape (whitespace aside)"""
-    pat = re.compile(r'tower::service_fn\(\s*move\s*\|request\|\s*\{\s*let\s+peer\s*=\s*peer\.clone\(\);\s*async\s+move\s*\{\s*peer\.do_rpc\(request\)\.await\s*\}\s*\}\s*\)\s*\.boxed\(\)')
-    t2, k = pat.subn('DoRpcService { peer }', e.text)
+    pat = re.compile(r'tower::service_fn\(\s*move\s*\|(\w+)\|\s*\{\s*let\s+(\w+)\s*=\s*\2\.clone\(\);\s*async\s+move\s*\{\s*\2\.do_rpc\(\1\)\.await\s*\}\s*\}\s*\)\s*\.boxed\(\)')
+    t2, k = pat.subn(r'DoRpcService { peer: \2 }', e.text)
     if k != 1:
         raise AnchorLost('%s: the innermost service is no longer literally `service_fn(|request| peer.do_rpc(request))`' % e.key)
     e.text = t2
@@ -312,26 +347,14 @@ def build(C):
         r == self.connection.peer, // @OBL Peer::peer_id::is_connection_identity [C01] a peer handle's identity is the authenticated identity of its connection
 ''')
     t += C.fn(PEER, 'impl Peer :: fn do_rpc', 'Peer::do_rpc', ['C02', 'C15', 'C01'], ret='r',
-              body_prefix='\n        broadcast use axiom_empty_ext;\n',
-              inserts=[
-                  ('X6', 'let mut response = read_response(', '''let ghost reply = recv_stream.inner.remaining();
-        assert(send_stream.inner.pair == recv_stream.inner.pair); // @OBL Peer::do_rpc::one_stream_pair [C02] the response is read from the receive half of the SAME bidirectional stream the request was written to (one open_bi per RPC)
-        assert(send_stream.codec == recv_stream.codec); // @OBL Peer::do_rpc::same_codec_both_directions [C15] the caller frames what it sends and what it receives with one and the same limit, built from its configuration
-        assert(send_stream.inner.o@ == enc_message(request.head.version, raw_req(request.head.route, request.head.headers).ser(), request.body@)); // @OBL Peer::do_rpc::sends_exactly_the_request [C02] before the response is awaited, what went out on the stream is exactly the encoding of the caller's request (route, headers, body) and nothing else
-        assert(send_stream.inner.finished@); // @OBL Peer::do_rpc::finishes_stream [C02] the request stream is finished before the response is awaited
-        ''', 'before'),
-                  ('X6', 'let mut response = read_response(&mut recv_stream).await?;',
-                   '''
-        assert(({ let d = dec_message(reply, recv_stream.codec.max as nat)->Some_0; let raw = RawResponseHeader::de(d.0)->Some_0;
-                  Some(response.head.status) == status_of(raw.status) && response.head.headers == raw.headers && response.body@ == d.1 })); // @OBL Peer::do_rpc::returns_exactly_the_reply [C02] the value returned is exactly (status, headers, body) decoded from the bytes that arrived on that stream'''),
-              ],
+              body_prefix='\n        broadcast use axiom_empty_ext;\n', transforms=[do_rpc_obligations(C)],
               spec='''
     ensures
         r is Ok ==> ext_peer(r->Ok_0.head.extensions) == Some(self.connection.peer), // @OBL Peer::do_rpc::attributes_connection_identity [C01] the PeerId a caller sees on a response is the authenticated identity of the connection; it is attached after decoding and nothing in the message can supply it
 ''')
     t += C.fn(PEER, 'impl Service<Request<Bytes>> for Peer :: fn call', 'Peer::call', ['C11', 'C01', 'C02'], ret='r',
-              sig_rewrites=[('Self::Future', 'RpcFuture'), ('mut request: Request<Bytes>', 'request0: Request<Bytes>')],
-              body_prefix='\n        broadcast use axiom_empty_ext;\n        let mut request = request0;\n',
+              sig_rewrites=[('Self::Future', 'RpcFuture')], param_names=('request0',),
+              body_prefix='\n        broadcast use axiom_empty_ext;\n',
               rewrites=[dict(rule='X5', pattern='crate::Direction', repl='Direction', optional=True)], transforms=[service_fn_standin], spec='''
     ensures
         r.layer == old(self).outbound_request_layer, // @OBL Peer::call::through_the_network_outbound_layer [C11] an RPC made through a peer handle passes the outbound layer stack the handle was given by its network (the stack that starts with the timeout middleware armed with the configured default)
